@@ -4,6 +4,18 @@
   Model  : Parsley.Comb.run   (src/pcore/prim_combinators.rs + prim_ascii.rs, line by line)
   Spec   : Parsley.Peg.Peg    (textbook PEG big-step relation on the remaining input)
 
+  Theorems (all full strength, none partial):
+    run_eq_peg                      model outcome = textbook outcome (value structure, consumed length / failure)
+    peg_deterministic, pegEval_sound, pegEval_total, pegEval_eq_peg, run_eq_pegEval   (spec and oracle)
+    success_span_and_cursor         span = [i, cursor), inside the buffer
+    failure_restores_cursor         every failing combinator leaves the cursor at i (any operands, any fuel)
+    spans_nest (+ nest_le, nest_pair, nest_alt, tiles_mem, tiles_adjacent)   children tile the parent span in order
+    star_always_succeeds_longest, star_never_fails, peg_star_longest
+    not_never_consumes
+    run_never_panics_or_hangs, run_fuel_sufficient
+    run_nonterminating_without_hyp, peg_star_nonconsuming_diverges   the side condition is necessary …
+    run_returns_peg_any, run_never_panics_any                        … but only for termination
+
   All theorems are for ALL expressions / buffers / cursors (no size bound).
   Hypotheses that appear:
     `StarBodiesConsume e`  – the property's own domain ("repetition applied to operands
